@@ -105,8 +105,139 @@ def tolerances(repo=None):
     return out, settings_atol(repo)
 
 
+# ---- decision wiring regenerated from the source (boolean skeletons; anything else makes the translator fail)
+def bool_expr(node, atoms, where):
+    if isinstance(node, ast.BoolOp):
+        op = " && " if isinstance(node.op, ast.And) else " || "
+        return "(" + op.join(bool_expr(v, atoms, where) for v in node.values) + ")"
+    if isinstance(node, ast.UnaryOp) and isinstance(node.op, ast.Not):
+        return "(!" + bool_expr(node.operand, atoms, where) + ")"
+    key = ast.unparse(node)
+    if key in atoms:
+        return atoms[key]
+    raise pytolean.Untranslatable(f"{where}: unsupported operand in a decision expression: `{key}`")
+
+
+def body_wo_doc(f):
+    b = list(f.body)
+    if b and isinstance(b[0], ast.Expr) and isinstance(b[0].value, ast.Constant) and isinstance(b[0].value.value, str):
+        b = b[1:]
+    return b
+
+
+CTORS = [("quara/objects/state.py", "State", "state"), ("quara/objects/povm.py", "Povm", "povm"),
+         ("quara/objects/gate.py", "Gate", "gate"), ("quara/objects/mprocess.py", "MProcess", "mprocess")]
+DISPATCH = {("State", "is_eq_constraint_satisfied"): "self.is_trace_one(atol)", ("State", "is_ineq_constraint_satisfied"): "self.is_positive_semidefinite(atol)",
+            ("Povm", "is_eq_constraint_satisfied"): "self.is_identity_sum(atol)", ("Povm", "is_ineq_constraint_satisfied"): "self.is_positive_semidefinite(atol)",
+            ("Gate", "is_eq_constraint_satisfied"): "self.is_tp(atol)", ("Gate", "is_ineq_constraint_satisfied"): "self.is_cp(atol)",
+            ("MProcess", "is_eq_constraint_satisfied"): "self.is_sum_tp(atol=atol)", ("MProcess", "is_ineq_constraint_satisfied"): "self.is_cp(atol=atol)"}
+
+
+def wiring(repo=None):
+    """Lean definitions (text) of the boolean decision skeletons of the verdict wiring"""
+    repo = repo or common.REPO
+    out = []
+    rd = lambda f: ast.parse(open(os.path.join(repo, f)).read())
+    # QOperation.is_physical
+    f = pytolean.find_def(rd("quara/objects/qoperation.py"), "is_physical", "QOperation")
+    where = "quara/objects/qoperation.py:QOperation.is_physical"
+    if [a.arg for a in f.args.args] != ["self", "atol_eq_const", "atol_ineq_const"] or [ast.unparse(x) for x in f.args.defaults] != ["None", "None"]:
+        raise pytolean.Untranslatable(f"{where}: unexpected signature")
+    b = body_wo_doc(f)
+    if len(b) != 1 or not isinstance(b[0], ast.Return):
+        raise pytolean.Untranslatable(f"{where}: body is not a single `return <decision>` ({len(b)} statements)")
+    e = bool_expr(b[0].value, {"self.is_eq_constraint_satisfied(atol_eq_const)": "eq atol_eq_const",
+                               "self.is_ineq_constraint_satisfied(atol_ineq_const)": "ineq atol_ineq_const"}, where)
+    out.append(f"/-- {where}:{b[0].lineno} `{ast.unparse(b[0])[:120]}` — `eq` / `ineq` are the sub-verdicts as functions of the\n"
+               "(optional) tolerance handed to them -/\n"
+               f"def is_physical (eq ineq : Option Rat → Bool) (atol_eq_const atol_ineq_const : Option Rat) : Bool :=\n  {e}\n")
+    # sub-verdict dispatch (checked, not emitted)
+    for (file, cls, _) in CTORS:
+        t = rd(file)
+        for meth in ("is_eq_constraint_satisfied", "is_ineq_constraint_satisfied"):
+            g = pytolean.find_def(t, meth, cls)
+            bb = body_wo_doc(g)
+            if len(bb) != 1 or not isinstance(bb[0], ast.Return) or ast.unparse(bb[0].value) != DISPATCH[(cls, meth)]:
+                raise pytolean.Untranslatable(f"{file}:{cls}.{meth}: expected `return {DISPATCH[(cls, meth)]}`")
+    # constructor guards
+    for file, cls, stem in CTORS:
+        g = pytolean.find_def(rd(file), "__init__", cls)
+        where = f"{file}:{cls}.__init__"
+        guards = [s_ for s_ in ast.walk(g) if isinstance(s_, ast.If) and len(s_.body) == 1 and isinstance(s_.body[0], ast.Raise)
+                  and "not physically correct" in ast.unparse(s_.body[0])]
+        if len(guards) != 1 or guards[0].orelse:
+            raise pytolean.Untranslatable(f"{where}: expected exactly one physicality guard, found {len(guards)}")
+        e = bool_expr(guards[0].test, {"self.is_physicality_required": "required", "self.is_physical()": "physical"}, where)
+        out.append(f"/-- {where}:{guards[0].lineno} `if {ast.unparse(guards[0].test)}: raise ValueError` -/\n"
+                   f"def {stem}_ctor_raises (required physical : Bool) : Bool :=\n  {e}\n")
+    # ElementalSystem flag
+    file = "quara/objects/elemental_system.py"
+    g = pytolean.find_def(rd(file), "__init__", "ElementalSystem")
+    where = f"{file}:ElementalSystem.__init__"
+    asg = {ast.unparse(s_.targets[0]): s_ for s_ in ast.walk(g) if isinstance(s_, ast.Assign) and len(s_.targets) == 1}
+    if ast.unparse(asg.get("self._is_hermitian", ast.parse("0").body[0]).value) != "self._basis.is_hermitian()":
+        raise pytolean.Untranslatable(f"{where}: `self._is_hermitian = self._basis.is_hermitian()` not found")
+    fl = asg.get("self._is_orthonormal_hermitian_0thprop_identity")
+    if fl is None:
+        raise pytolean.Untranslatable(f"{where}: flag assignment not found")
+    e = bool_expr(fl.value, {"self._basis.is_normal()": "is_normal", "self._basis.is_orthogonal()": "is_orthogonal",
+                             "self._is_hermitian": "is_hermitian", "self._basis.is_0thpropI()": "is_0thpropI"}, where)
+    out.append(f"/-- {where}:{fl.lineno} the orthonormal-Hermitian-identity-first flag of one subsystem -/\n"
+               f"def elemental_flag (is_normal is_orthogonal is_hermitian is_0thpropI : Bool) : Bool :=\n  {e}\n")
+    # CompositeSystem aggregation
+    file = "quara/objects/composite_system.py"
+    g = pytolean.find_def(rd(file), "__init__", "CompositeSystem")
+    where = f"{file}:CompositeSystem.__init__"
+    asg = {ast.unparse(s_.targets[0]): s_ for s_ in ast.walk(g) if isinstance(s_, ast.Assign) and len(s_.targets) == 1}
+    fl = asg.get("self._is_orthonormal_hermitian_0thprop_identity")
+    lst = asg.get("is_orthonormal_hermitian_0thpropIs")
+    if fl is None or lst is None or ast.unparse(lst.value) != "[e_sys.is_orthonormal_hermitian_0thprop_identity for e_sys in self._elemental_systems]":
+        raise pytolean.Untranslatable(f"{where}: per-subsystem flag list / aggregation not found")
+    v = fl.value
+    if not (isinstance(v, ast.Call) and isinstance(v.func, ast.Name) and v.func.id in ("all", "any") and len(v.args) == 1
+            and ast.unparse(v.args[0]) == "is_orthonormal_hermitian_0thpropIs" and not v.keywords):
+        raise pytolean.Untranslatable(f"{where}: aggregation is not all(..)/any(..) of the per-subsystem flags: `{ast.unparse(v)}`")
+    out.append(f"/-- {where}:{fl.lineno} `{ast.unparse(fl)}` -/\n"
+               f"def composite_flag (flags : List Bool) : Bool :=\n  flags.{v.func.id} id\n")
+    # gate.is_tp branch selector
+    file = "quara/objects/gate.py"
+    g = pytolean.find_def(rd(file), "is_tp")
+    ifs = [s_ for s_ in body_wo_doc(g) if isinstance(s_, ast.If)]
+    if len(ifs) != 1 or ast.unparse(ifs[0].test) != "c_sys.is_orthonormal_hermitian_0thprop_identity is True":
+        raise pytolean.Untranslatable(f"{file}:is_tp: branch test is not `c_sys.is_orthonormal_hermitian_0thprop_identity is True`")
+    out.append(f"/-- {file}:{ifs[0].lineno} gate.is_tp takes the first-row test exactly when this is true -/\n"
+               "def is_tp_first_row_branch (c_sys_flag : Bool) : Bool :=\n  c_sys_flag\n")
+    return out
+
+
+EXPECTED_WIRING = [
+    "def is_physical (eq ineq : Option Rat → Bool) (atol_eq_const atol_ineq_const : Option Rat) : Bool :=\n  (eq atol_eq_const && ineq atol_ineq_const)\n",
+    "def state_ctor_raises (required physical : Bool) : Bool :=\n  (required && (!physical))\n",
+    "def povm_ctor_raises (required physical : Bool) : Bool :=\n  (required && (!physical))\n",
+    "def gate_ctor_raises (required physical : Bool) : Bool :=\n  (required && (!physical))\n",
+    "def mprocess_ctor_raises (required physical : Bool) : Bool :=\n  (required && (!physical))\n",
+    "def elemental_flag (is_normal is_orthogonal is_hermitian is_0thpropI : Bool) : Bool :=\n  (is_normal && is_orthogonal && is_hermitian && is_0thpropI)\n",
+    "def composite_flag (flags : List Bool) : Bool :=\n  flags.all id\n",
+    "def is_tp_first_row_branch (c_sys_flag : Bool) : Bool :=\n  c_sys_flag\n",
+]
+EXPECTED_RTOL = {"state_is_trace_one": Fraction("1e-5"), "povm_is_identity_sum": Fraction("1e-5"), "gate_is_tp_row": Fraction(0),
+                 "gate_is_tp_trace": Fraction(0), "mutil_is_hermitian": Fraction(0), "mutil_is_psd_eig": Fraction(0)}
+
+
 def translate(ctx):
-    tol, atol0 = tolerances()
+    """regenerate lean/QGen/C01.lean. A part that cannot be translated is reported as a broken obligation (returned) and written with
+    the expected text of the reference tree, so that the file stays complete and the driver still builds."""
+    problems = []
+    try:
+        tol, atol0 = tolerances()
+    except pytolean.Untranslatable as e:
+        problems.append(f"translator failed: Untranslatable: {e}")
+        tol, atol0 = [(k, v, "NOT regenerated (source not translatable): value of the reference tree") for k, v in EXPECTED_RTOL.items()], Fraction("1e-13")
+    try:
+        wire = wiring()
+    except pytolean.Untranslatable as e:
+        problems.append(f"translator failed: Untranslatable: {e}")
+        wire = ["-- NOT regenerated (source not translatable): skeleton of the reference tree\n" + w for w in EXPECTED_WIRING]
     parts = ["/-! GENERATED on every run by harness/c01.py:translate from the Python sources of quara — do not edit.",
              "Effective relative tolerance of every `isclose/allclose` call site inside the verdict functions anchored by C01",
              "(absent `rtol` keyword ⇒ the callee's default, numpy: 1e-5) and the default absolute tolerance of `Settings`.",
@@ -114,9 +245,10 @@ def translate(ctx):
              "namespace QGen.C01", ""]
     for stem, rtol, doc in tol:
         parts += [f"/-- {doc} -/", f"def {stem}_rtol : Rat := {lean_rat(rtol)}", ""]
-    parts += ["/-- quara/settings.py `Settings.__atol` -/", f"def settings_atol : Rat := {lean_rat(atol0)}", "", "end QGen.C01"]
+    parts += ["/-- quara/settings.py `Settings.__atol` -/", f"def settings_atol : Rat := {lean_rat(atol0)}", ""]
+    parts += ["/-! decision wiring (boolean skeletons of the source; operands are parameters) -/", ""] + wire + ["end QGen.C01"]
     pytolean.write_if_changed(os.path.join(common.LEAN, "QGen", "C01.lean"), "\n".join(parts) + "\n")
-    return []
+    return problems
 
 
 # ----------------------------------------------------------------------------- objects with designed defects
@@ -321,6 +453,17 @@ def gen_objects(ctx, g, volume=1):
                         hss = [0.4 * hs, 0.6 * gate_hs(g, B, d, None)]
                         yield dict(type="mprocess", basis=bname, atol=atol, c=c, B=B, onh0=onh0, arr=hss, m=m,
                                    design=dict(dt=0.0, family=name))
+                # ---- measurement processes with a non-CP outcome whose weight hs[0][0] is zero or negligible
+                if atol in (ATOLS[0], ATOLS[2], ATOLS[-1]):
+                    n = d * d
+                    for name, bad in (("zero-weight |B1)(B1|", 0.3 * np.outer(np.eye(n)[1], np.eye(n)[1])),
+                                      ("zero-weight small |B1)(B1|", 1e-3 * np.outer(np.eye(n)[1], np.eye(n)[1])),
+                                      ("negligible-weight -5e-10*id", -5e-10 * np.eye(n)),
+                                      ("zero-weight reflection", np.diag([0.0] + [0.2] * (n - 2) + [-0.2]))):
+                        base = gate_hs(g, B, d, None)
+                        hss = [0.5 * base, 0.5 * base, bad]
+                        yield dict(type="mprocess", basis=bname, atol=atol, c=c, B=B, onh0=onh0, arr=hss, m=3,
+                                   design=dict(dt=0.0, family=name))
                 # ---- gates (first-row branch) and measurement processes
                 for dt in sizes(atol, d1=False) + [1e-5]:
                     for mu in (None, 0.0, -atol / 10, -10 * atol, -0.2):
@@ -385,7 +528,14 @@ def build(o, required=False):
 
 
 def impl_verdicts(o, obj, atol):
-    """sub-verdicts of the real code"""
+    """sub-verdicts of the real code (type-specific methods) + the generic entry points is_eq/ineq_constraint_satisfied"""
+    v = _impl_verdicts(o, obj, atol)
+    v["geq"] = bool(obj.is_eq_constraint_satisfied(atol))
+    v["gineq"] = bool(obj.is_ineq_constraint_satisfied(atol))
+    return v
+
+
+def _impl_verdicts(o, obj, atol):
     ty = o["type"]
     if ty == "state":
         return dict(eq=bool(obj.is_trace_one(atol)), herm=bool(obj.is_hermitian(atol)), ineq=bool(obj.is_positive_semidefinite(atol)),
@@ -483,8 +633,19 @@ def correspondence(ctx):
             except ValueError as e:
                 r = "notPhysical" if "not physically correct" in str(e) else f"ValueError {e}"
             phys0 = obj.is_physical()
-            pend.append((f"{o['type']} constructor", (o["type"], o["basis"], o["design"]), r, drv.ask("mk", 1, int(bool(phys0)))))
-            pend.append((f"{o['type']} constructor", (o["type"], "not required"), "ok", drv.ask("mk", 0, int(bool(phys0)))))
+            pend.append((f"{o['type']} constructor", (o["type"], o["basis"], o["design"]), r, drv.ask("mkt", o["type"], 1, int(bool(phys0)))))
+            pend.append((f"{o['type']} constructor", (o["type"], "not required"), "ok", drv.ask("mkt", o["type"], 0, int(bool(phys0)))))
+    # the basis flag (branch selector of gate.is_tp): per-subsystem basis verdicts -> generated aggregation
+    for bname in ("1qubit", "qutrit", "2qubit") + GENERIC + (() if ctx.quick else ("qubit_qutrit",)):
+        c, B = csys(bname)
+        bits, eflags = [], ""
+        for e in c.elemental_systems:
+            b_ = e.basis
+            bits.append("".join("1" if x else "0" for x in (b_.is_normal(), b_.is_orthogonal(), b_.is_hermitian(), b_.is_0thpropI())))
+            eflags += "1" if e.is_orthonormal_hermitian_0thprop_identity else "0"
+        want = ("1" if c.is_orthonormal_hermitian_0thprop_identity else "0") + " " + eflags
+        pend.append(("basis flag", (bname, bits), want, drv.ask("onh0", ",".join(bits))))
+        ctx.case(("basisflag", bname), nontrivial=len(bits) > 1)
     # origin objects
     for bname in ("1qubit", "qutrit", "2qubit"):
         c, B = csys(bname)
@@ -511,11 +672,12 @@ def correspondence(ctx):
 PARTIAL = [
     "traceOne / identitySum verdict <=> defect <= atol holds only if the generated rtol of State.is_trace_one / Povm.is_identity_sum is 0 "
     "(theorems traceOne_exact_iff_rtol_zero, identitySum_exact_iff_rtol_zero); on the current tree it is 1e-5 (defect D1, open known finding)",
-    "psdVerdict_eigs_iff_posSemidef assumes the eigenvalue list is exactly the spectrum of M (contract of np.linalg.eigvalsh; float accuracy "
-    "is not modelled) and that M is exactly Hermitian",
-    "origin objects: equality verdicts proved for all d, m; PSD part proved for the scalar operator matrices c*1 (psdVerdict_scalar) relative to "
-    "a non-negative eigenvalue parameter; that the origin operators are these scalar matrices is checked on the real code (oracle)",
-    "tp_branches_relation is stated for the trace list (tau,0,...,0) of an ONH0 basis (tau = Tr B_0 > 0 rational parameter; sqrt d is irrational)",
+    "psdVerdict_iff_posSemidef_matrix / statePhysical_iff_matrix / gatePhysical_iff_matrix: stated on the Mathlib matrix the model matrix denotes, "
+    "under the explicit contract that the eigenvalue list is the spectrum (np.linalg.eigvalsh) and for an exactly Hermitian matrix; float accuracy "
+    "of eigvalsh is not modelled",
+    "the basis verdicts is_normal / is_orthogonal / is_0thpropI themselves are not modelled (their results are parameters of the generated flag "
+    "aggregation); the oracle decides the flag from the basis matrices independently",
+    "tp_branches_relation is stated for the trace list (tau,0,...,0) of an identity-first basis (tau = Tr B_0 > 0 rational parameter; sqrt d is irrational)",
 ]
 
 
@@ -619,6 +781,9 @@ def check_object(ctx, o, atols=None, ctor=True):
             ctx.violate(f"C01/{INEQNAME[ty]}/{'accepts' if v['ineq'] else 'rejects'}", f"{tag}: verdict {v['ineq']}, definition {ineq}", rep)
         if ty == "state" and not v["herm"]:
             ctx.violate("C01/State.is_hermitian/rejects", f"{tag}: real vec on a Hermitian basis judged non-Hermitian", rep)
+        if v["geq"] != v["eq"] or v["gineq"] != v["ineq"]:
+            ctx.violate(f"C01/{CLSNAME[ty]}.is_{'eq' if v['geq'] != v['eq'] else 'ineq'}_constraint_satisfied/differs",
+                        f"{tag}: is_eq/ineq_constraint_satisfied = ({v['geq']}, {v['gineq']}) but the sub-verdicts are ({v['eq']}, {v['ineq']})", rep)
         if v["phys"] != (v["eq"] and v["ineq"]):
             ctx.violate(f"C01/{CLSNAME[ty]}.is_physical/wiring", f"{tag}: is_physical={v['phys']} but eq={v['eq']} ineq={v['ineq']}", rep)
         # exactly one tolerance given: the other one is the global setting (None), independently
@@ -639,6 +804,21 @@ def check_object(ctx, o, atols=None, ctor=True):
                 if prev[k] and not v[k]:
                     ctx.violate(f"C01/{CLSNAME[ty]}/{k}/non-monotone", f"{tag}: true at a smaller atol, false at {atol:g}", rep)
         prev = v
+    # verdicts follow the object: after set_zero() they are those of the zero operator(s)
+    if ctor:
+        a0 = Settings.get_atol()
+        rep = dict(rep_of(o, a0), sequence="verdicts; set_zero(); verdicts")
+        try:
+            ob2 = build(o)
+            impl_verdicts(o, ob2, a0)
+            ob2.set_zero()
+            z = impl_verdicts(o, ob2, a0)
+            stz = np.abs(ob2.to_stacked_vector()).max()
+        except Exception as e:  # noqa
+            ctx.violate(f"C01/{CLSNAME[ty]}/after-set_zero/raises", f"{type(e).__name__}: {e}", rep); return
+        if stz != 0 or z["eq"] or z["geq"] or not z["ineq"] or not z["gineq"] or z["phys"]:
+            ctx.violate(f"C01/{CLSNAME[ty]}/after-set_zero", f"{o['basis']}: verdicts of the zeroed object are eq={z['eq']} ineq={z['ineq']} "
+                        f"physical={z['phys']} (the zero operator: eq False, ineq True, physical False)", rep)
     # constructor with physicality required (default tolerance of Settings)
     if ctor:
         a0 = Settings.get_atol()
